@@ -21,7 +21,7 @@ CHECKS = {
  'C11': dict(machine='M-PEER', level='fault_enumeration', design='3/C11',
    text='Solver engines run as peers behind pass-through proxies. For every generated program (LP, MILP with user bounds on '
         'binaries/integers, SOCP, MISOCP, exp-cone; feasible/infeasible/unbounded) every capable interface is called with random '
-        'display/log settings and EVERY documented failure return of its engine (complete table per engine: HiGHS status 1-4 x '
+        'display/log settings (solve and soc_solve, with and without Gurobi parameters) and EVERY documented failure return of its engine (complete table per engine: HiGHS status 1-4 x '
         '{no x, stale x, garbage x}, ECOS exit flags, OR-Tools result codes and missing solver, Gurobi statuses with and without '
         'incumbent, engine exceptions) is injected once, plus stdout and clock faults. Failed calls must report no solution '
         '(get/read-back raise, optimal() False, no new solution after an exception); healthy calls must agree across interfaces and '
@@ -34,7 +34,7 @@ CHECKS = {
  'C17': dict(machine='M-MULTI', level='exploration', design='3/C17',
    text='2-3 declared models (ro, dro, deterministic ro programs, lp front end; any mix) are built by interleaved tasks under one '
         'seeded scheduler, with solve events (and engine faults) on completed models in between. Interference mode: every model '
-        'must give the result of the same declared model built alone, computed before and after the interleaved run. Misuse mode: 20 '
+        'must give the result of the same declared model built alone, computed before and after the interleaved run. Misuse mode: 30 '
         'kinds of misuse (cross-model st/operands/sets/ambiguity sets/adaptation, second objective in every pairing, non-scalar '
         'objective, read-back of unsolved and failed models, ambiguity() after constraints) are injected at random points on objects '
         'that exist at that instant and must raise at that call.',
@@ -42,13 +42,13 @@ CHECKS = {
         'Bounds: <=3 models, <=8 misuse operations per run.',
    technique='deterministic simulation: seeded interleaving of model-building tasks with injected misuse operations and isolated-build reference'),
  'C19': dict(machine='M-DET', level='exploration', design='3/C19',
-   text='The same explicit op list is executed in 6 worlds that differ only in ambient state: fresh interpreters with other '
+   text='The same explicit op list is executed in 7 worlds that differ only in ambient state: fresh interpreters with other '
         'PYTHONHASHSEED values, global RNG states (seeded and pre-consumed), clock epoch, GC disabled vs collect-with-junk between '
         'ops, worker thread vs main thread (all compared bit-wise on primal and dual standard forms), and other memory layouts of the '
         'user arrays (F-order, strided views, read-only, int64; compared structurally and to 1e-12). RNG states must be untouched, '
         'every user array byte-identical after every op, per-op outcomes identical; a seeded repetition sequence of do_math '
         '(primal/dual), solve, soc_solve, export and FAILED solves (engine faults, clock jumps) must leave the cached forms unchanged '
-        'and return the same answers.',
+        'and return the same answers; a seventh world formulates the dual before the primal; exports and dual() queries are part of the repetition sequences.',
    note='Trusted: the digest covers linear/const/sense/vtype/ub/lb/obj/qmat/xmat; numpy products of user data are not layout-invariant to the '
         'last bit, hence the 1e-12 comparison for layout worlds only. float32 user data is not compared.',
    technique='deterministic simulation: identical op list replayed across controlled ambient worlds (hash seed, RNG, clock, GC, thread, array layout) plus seeded repetition/fault sequences'),
@@ -65,7 +65,7 @@ CHECKS = {
    text='Same histories as C13 plus failed-then-healthy solve sequences: model.get() in user sense, x.get() per label and shape, '
         'x.get(z) coefficients/NaN, x() vs x.get(), affine and bi-affine expression evaluation at assigned realisations are compared '
         'with closed forms per scenario label; after an injected solver failure every query must raise. Only the history-dependent '
-        'read-back map is decided; evaluation of every convex atom is a pure function and is covered only for the atoms used here.',
+        'read-back map is decided; evaluation of every convex atom is a pure function and is covered only for the atoms used here. A grow-then-fail phase checks that no query mixes numbers of two different solves.',
    note='Trusted: closed forms, engines on healthy calls. Convex-atom evaluation beyond affine/bi-affine is out of scope (pure function).',
    technique='deterministic simulation: read-back checked against per-label closed forms after seeded adapt/solve/fault histories'),
  'C09': dict(machine='M-HIST', level='exploration', design='3/C09',
